@@ -105,7 +105,15 @@ func buildTx(id int, from *account, nonce uint64, price *big.Int, gas uint64, va
 	}
 	// the id is folded into the recipient so that otherwise equal transactions differ
 	to := common.BytesToAddress([]byte{0xee, byte(id >> 16), byte(id >> 8), byte(id)})
-	tx, err := types.SignTx(signer, types.NewTransaction(nonce, to, new(big.Int).Set(value), gas, new(big.Int).Set(price), data), from.key)
+	// types.SignTx always signs the unprotected hash, whatever signer it is given; an
+	// EIP-155 transaction has to be signed over signer.Hash by hand.
+	unsigned := types.NewTransaction(nonce, to, new(big.Int).Set(value), gas, new(big.Int).Set(price), data)
+	h := signer.Hash(unsigned)
+	sig, err := crypto.Sign(h[:], from.key)
+	if err != nil {
+		panic(err)
+	}
+	tx, err := unsigned.WithSignature(signer, sig)
 	if err != nil {
 		panic(err)
 	}
